@@ -82,14 +82,31 @@ def other_for(rnd, kind, vals_fn, n, im):
         return ot(kind, [vals_fn(True) for _ in range(n)], shape=[n])
     if kind == "npfloat32":
         return ot(kind, [f32(vals_fn(False))])
+    if kind in ("dimscaled", "dimscaledarr"):
+        # scaled dimensionless unit; values chosen so that value * scale is exactly representable
+        unit = rnd.choice(["percent", "km/m", "m/mm"])
+        m = n if kind == "dimscaledarr" else 1
+        if unit == "percent":
+            vals = [25.0 * rnd.choice([1, 2, 3, 4, 6, 8, -2, -5, 10, 50, 400]) for _ in range(m)]
+        else:
+            vals = [rnd.choice([1, 2, 3, -1, 5, 12, -7]) / 8.0 for _ in range(m)]
+        d = ot(kind, vals, im=im, shape=[m] if kind == "dimscaledarr" else None)
+        d["unit"] = unit
+        return d
     if kind in pd.ARRAY_KINDS:
         return ot(kind, [vals_fn(False) for _ in range(n)], im=im, shape=[n])
     return ot(kind, [vals_fn(False)], im=im)
 
 
+def form(rnd):
+    """out of place / in-place operator / ufunc with out= a Phase target of either kind"""
+    r = rnd.random()
+    return {"form": "op"} if r < 0.55 else {"form": "iop"} if r < 0.78 else {"form": "out", "tim": rnd.random() < 0.5}
+
+
 # ------------------------------------------------------------------ recipes
 ADD_KINDS = list(pd.PLAIN) + ["cycleq", "cycleqarr", "angle", "phase", "phasearr"]
-MUL_KINDS = list(pd.PLAIN) + list(pd.DIMLESS)
+MUL_KINDS = list(pd.PLAIN) + list(pd.DIMLESS)      # incl. dimscaled / dimscaledarr
 IM_FACTOR_KINDS = list(pd.COMPLEX) + list(pd.DIMLESS)
 
 
@@ -111,7 +128,7 @@ def gen_addsub(rnd, n):
                 c = count(rnd, big=(not big and rnd.random() < 0.4))
                 return int(c) if integer else c + rnd.choice([0.0, 0.5, 0.25, fraction(rnd)])
             o = other_for(rnd, kind, val, m or 1, im)
-        out.append({"ev": "arith", "op": op, "ord": rnd.choice(["po", "op"]), "ph": ph, "ot": o})
+        out.append(dict({"ev": "arith", "op": op, "ord": rnd.choice(["po", "op"]), "ph": ph, "ot": o}, **form(rnd)))
     return out
 
 
@@ -150,9 +167,11 @@ def gen_muldiv(rnd, n):
             if op == "div" and (x == 0 or abs(x) < 1.0 / room):
                 x = rnd.uniform(1, 3) / room if room < 1e300 else 1.0
             return x if x != 0 else 1.0
+        if kind in ("dimscaled", "dimscaledarr"):      # factors up to 1000: keep the product in scope
+            ph = phase(rnd, big=False, im=im, n=m if arr else None)
         o = other_for(rnd, kind, val, m or 1, fim)
         ord_ = "po" if op == "div" else rnd.choice(["po", "op"])
-        out.append({"ev": "arith", "op": op, "ord": ord_, "ph": ph, "ot": o})
+        out.append(dict({"ev": "arith", "op": op, "ord": ord_, "ph": ph, "ot": o}, **form(rnd)))
     return out
 
 
@@ -160,8 +179,8 @@ def gen_unary(rnd, n):
     out = []
     for _ in range(n):
         arr = rnd.random() < 0.3
-        out.append({"ev": "arith", "op": rnd.choice(["neg", "abs", "pos"]), "np": rnd.random() < 0.5,
-                    "ph": phase(rnd, im=rnd.random() < 0.25, n=rnd.choice([2, 4]) if arr else None)})
+        out.append(dict({"ev": "arith", "op": rnd.choice(["neg", "abs", "pos"]), "np": rnd.random() < 0.5,
+                         "ph": phase(rnd, im=rnd.random() < 0.25, n=rnd.choice([2, 4]) if arr else None)}, **form(rnd)))
     return out
 
 
@@ -270,6 +289,20 @@ def fixed_cases():
         for k in ("pyint", "pyfloat", "npfloat", "arr0", "dimless"):
             out.append({"ev": "arith", "op": "mul", "ord": "po", "ph": ph, "ot": ot(k, [2.0])})
             out.append({"ev": "arith", "op": "div", "ord": "po", "ph": ph, "ot": ot(k, [2.0])})
+    for ph in (one, onej, big):
+        for k, v in (("pycomplex", 1.0), ("npcomplex", 2.0), ("pyfloat", 2.0), ("dimless", 0.5)):
+            im = k in ("pycomplex", "npcomplex")
+            for op in ("mul", "div"):
+                out.append({"ev": "arith", "op": op, "ord": "po", "ph": ph, "ot": ot(k, [v], im=im), "form": "iop"})
+                for tim in (False, True):
+                    out.append({"ev": "arith", "op": op, "ord": "po", "ph": ph, "ot": ot(k, [v], im=im), "form": "out",
+                                "tim": tim})
+        for unit, v in (("percent", 50.0), ("percent", 200.0), ("km/m", 2.0)):
+            for op, ord_ in (("mul", "po"), ("mul", "op"), ("div", "po")):
+                if ph is big and unit == "km/m" and op == "mul":
+                    continue
+                out.append({"ev": "arith", "op": op, "ord": ord_, "ph": ph,
+                            "ot": dict(ot("dimscaled", [v], im=False), unit=unit)})
     for op in ("floordiv", "mod", "divmod"):
         out.append({"ev": "arith", "op": op, "ord": "po", "ph": one, "ot": as_phase_ot(one)})
         out.append({"ev": "arith", "op": op, "ord": "po", "ph": one, "ot": ot("cycleq", [0.5])})
